@@ -17,8 +17,8 @@ THOROUGH_MAX = 220  # all quick shapes + a fixed strided sample of the other tho
 META = {
     "bounds": "every predefined reduction function x datatype branch of smpi_op.cpp (quick: a sample of 7 integer, 2 floating and 3 pair types per operator), vectors of "
               "symbolic length 0..3, all element values symbolic (integers: full width; floating point: any double incl. NaN/inf, compared by value); "
-              "SUM/PROD on floating point by identical-expression equality; MINLOC/MAXLOC ties; a sample of unsupported pairs must reach xbt_die; unwind 5",
-    "outside": "Op::apply plumbing (data-segment switch, replay mode, Fortran handles), MPI_Reduce_local/Allreduce, complex and long double types, user-defined operators, "
+              "PROD of 2 elements on floating point by identical-expression equality (thorough tier, z3); MINLOC/MAXLOC ties; a sample of unsupported pairs must reach xbt_die; unwind 5",
+    "outside": "floating-point SUM and floating-point PROD of 3 elements (z3: ~100 s each alone, no verdict in 900 s when the tier runs in parallel; SAT back ends none), Op::apply plumbing (data-segment switch, replay mode, Fortran handles), MPI_Reduce_local/Allreduce, complex and long double types, user-defined operators, "
                "the allowed-types flags of the PMPI layer (static initialisers are not run)",
     "stubs": ["xbt logging -> silent", "abort() = violation, except for the 'unsupported pair' shapes where it is the specified outcome",
               "predefined datatype objects = distinct zero-initialised objects (only their identity is used by the functions)"],
@@ -31,7 +31,9 @@ def queries(tier):
     qs = []
     def q(fn, opk, dt, ct, kind):
         hard = fn == "prod" or (kind == 1 and fn == "sum")
-        for ln in ((2, 3) if hard else (None,)):
+        if kind == 1 and fn == "sum":
+            return  # floating-point SUM: z3 gave a verdict in ~100 s on an idle machine but none in 900 s when the tier runs 10 queries in parallel: not claimed
+        for ln in (((2,) if kind == 1 else (2, 3)) if hard else (None,)):  # (floating-point PROD of 3 elements: 635 s under load, too close to the cap)
             defs = {"P_FUNC": fn + "_func", "P_OPK": opk, "P_DT": "smpi_MPI_" + dt, "P_CT": ct, "P_KIND": kind}
             if ln is not None:
                 defs["P_LEN"] = ln
